@@ -54,3 +54,8 @@ claim("C12", "model_checking",
       "mpmath expm; lsim; model identification at ten frequencies; sampled sinusoid tolerance 1e-3",
       "bounded-exhaustive enumeration of circuits x input-shape combinations on the implementation with a per-sample oracle",
       "DESIGN.md section 4 C12")
+claim("C18", "model_checking",
+      "Every decimal mantissa of up to 2 digits (3 on the main tables; thorough 3 everywhere and 4 on the main tables) times every power of ten 1e-15..1e15, together with its binary64 neighbours, its p-digit rounding midpoints and their neighbours, both signs, precisions 1..6 and every prefix table used by the display helpers is rendered and parsed back by a reference parser: accuracy to half a unit of the p-th digit, sign, engineering exponent, mantissa range and saturation are judged on each; complex values in all four quadrants (Cartesian, compact, polar, degrees) and every Display.print_* helper likewise.",
+      "1e-9 relative slack on the half unit for binary neighbours of decimal ties; values between grid points not examined",
+      "bounded-exhaustive enumeration of values x precisions x configurations on the implementation with a reference parser",
+      "DESIGN.md section 4 C18")
